@@ -54,12 +54,17 @@ func hasRule(rr *RunResult, rule, sig string) *Violation {
 	return nil
 }
 
+// minimiseWall bounds one minimisation in wall-clock time (multi-schedule
+// profiles cost tens of milliseconds per execution).
+var minimiseWall = 8 * time.Second
+
 // minimise delta-debugs the tape while the same rule still fails.
 func minimise(p *PropDef, tape []uint32, rule, sig, tier string, budget int) ([]uint32, int) {
 	execs := 0
 	cur := append([]uint32(nil), tape...)
+	deadline := time.Now().Add(minimiseWall)
 	try := func(c []uint32) bool {
-		if execs >= budget {
+		if execs >= budget || time.Now().After(deadline) {
 			return false
 		}
 		execs++
@@ -226,6 +231,7 @@ func TestWorker(t *testing.T) {
 	start := time.Now()
 	seenViol := map[string]bool{}
 	maxShapes := int(envInt("VERIF_MAX_SHAPES", 150000))
+	watchdogAfter := time.Duration(envInt("VERIF_WATCHDOG_S", 25)) * time.Second
 	emitHash := os.Getenv("VERIF_EMIT_HASH") != ""
 	startI := envInt("VERIF_START_I", 0)
 	onlyRun := envInt("VERIF_ONLY_RUN", -1)
@@ -244,8 +250,21 @@ func TestWorker(t *testing.T) {
 			fmt.Fprintf(out, "{\"type\":\"begin\",\"run\":%d,\"i\":%d}\n", run, i)
 			out.Flush()
 		}
+		// wall-clock watchdog (a real timer: this goroutine is outside every
+		// bubble): a run that makes no progress for this long is a busy loop
+		// inside the library, which fake time cannot see
+		wd := time.AfterFunc(watchdogAfter, func() {
+			fmt.Fprintf(os.Stderr, "\nWATCHDOG: run %d exceeded %s of wall-clock time\n", run, watchdogAfter)
+			buf := make([]byte, 1<<20)
+			os.Stderr.Write(buf[:runtime.Stack(buf, true)])
+			if outF != nil {
+				fmt.Fprintf(outF, "{\"type\":\"watchdog\",\"run\":%d}\n", run)
+			}
+			os.Exit(3)
+		})
 		tp := NewTape(base, run)
 		rr := p.Run(tp, st, tier)
+		wd.Stop()
 		st.Runs++
 		sum.LastRun = run
 		if errs := takeSelfCheckErrs(); len(errs) > 0 && rr.Harness == "" {
